@@ -291,3 +291,69 @@ def canon(m):
 def kv_seed(seed, tag):
     import hashlib
     return int(hashlib.sha1(('%d/%s' % (seed, tag)).encode()).hexdigest()[:12], 16)
+
+
+def c20_extra(pid, tier, seed):
+    """Segment.Backup of one segment into a target that already holds files under the segment's names, with chosen sizes
+    and modification times: the result is compared with BackupFiles.copy_file; and whenever the target's file is a
+    prefix of the source's (an empty target, an earlier copy of a file that has since only been appended to, a copy
+    that was killed part-way: theorem C20_backup_gives_source) the target must end up with exactly the source's bytes
+    and time"""
+    rng = random.Random(kv_seed(seed, 'c20bk'))
+    n = 300 if tier == 'quick' else 6000
+    lines, meta = [], {}
+
+    def tgt_for(src, mt):
+        r = rng.random()
+        nb = 0 if src == '-' else len(src) // 2
+        if r < 0.2:
+            return 'none', 0, True
+        if r < 0.55:
+            k = rng.choice([0, nb // 2, max(0, nb - 1), nb, nb])
+            d = src[:2 * k] if k else '-'
+            return d, rng.choice([mt, mt, mt + 1, mt - 1, 5000]), True
+        if r < 0.8 and nb:
+            # same size, other content: not a prefix (only a copy of another file could look like this)
+            d = rnd_bytes(rng, nb)
+            return d, rng.choice([mt, mt, mt + 1]), d == src
+        d = rnd_bytes(rng, rng.choice([1, 5, 30]))
+        return d, rng.choice([mt, mt + 1]), (src != '-' and src.startswith(d))
+    for i in range(n):
+        base = rng.choice([0, 7, 100000])
+        sl = rnd_bytes(rng, rng.choice([0, 1, 8, 30, 60])) if rng.random() < 0.9 else '-'
+        si = rnd_bytes(rng, rng.choice([0, 8, 24, 40])) if rng.random() < 0.9 else '-'
+        sl, si = sl or '-', si or '-'
+        mtl, mti = rng.choice([1000, 1001, 2000]), rng.choice([1000, 1001, 2000])
+        tl, tmtl, covl = tgt_for(sl, mtl)
+        ti, tmti, covi = tgt_for(si, mti)
+        line = 'segbk %d %s %s %d %d %s %d %s %d' % (base, sl, si, mtl, mti, tl, tmtl, ti, tmti)
+        lines.append(line)
+        meta[line] = (sl, mtl, covl, si, mti, covi)
+    lines = list(dict.fromkeys(lines))
+    res = run_codec(lines, 'codec20-' + pid)
+    viol, ncov, nskip = [], 0, 0
+    for op, impl, model in res:
+        sl, mtl, covl, si, mti, covi = meta[op]
+        t = impl.split()
+        if t[:1] != ['ok'] or len(t) != 5:
+            viol.append(('P', '# ' + pid + ' violated: Backup of a segment fails\n# op: %s\n# implementation: %s\n' % (op[:600], impl[:300])))
+            continue
+        for what, cov, src, mt, got, gmt in (('log', covl, sl, mtl, t[1], t[2]), ('index', covi, si, mti, t[3], t[4])):
+            if cov:
+                ncov += 1
+                if got != src or int(gmt) != mt:
+                    viol.append(('P', '# ' + pid + ' violated: the target held a prefix of the source\'s %s file (or nothing), but after Backup it '
+                                      'does not hold the source\'s bytes and time\n# op (codec language: segbk base srclog srcidx mtime mtime '
+                                      'tgtlog mtime tgtidx mtime): %s\n# implementation: %s\n# source: %s %d\n' % (what, op[:800], impl[:600], src[:300], mt)))
+                    break
+        else:
+            if impl != model:
+                viol.append(('corr', '# correspondence corr:C20/copy no longer checks: Segment.Backup differs from BackupFiles.copy_file '
+                                     '(theorems C20_backup_gives_source / C20_backup_after_killed_backup)\n# op: %s\n# impl: %s\n# model: %s\n'
+                             % (op[:600], impl[:400], model[:400])))
+    cov = dict(segment_backups=dict(segments=len(lines), files_whose_target_was_a_prefix=ncov,
+                                    rule='one segment (random bytes, three modification times) backed up into a directory that holds '
+                                         'nothing / a prefix of the file (any length, same or other mtime) / a file of the same size with '
+                                         'other content / something else under its names; result bytes and mtimes compared with '
+                                         'BackupFiles.copy_file; prefix targets must end as the source'))
+    return viol, cov
